@@ -40,6 +40,10 @@ STRENGTHENED = {
     'C02-9': 'generated paths contain escaped slashes and escaped letters (/d%2Fx.html, /%64/x.html): now a concrete input (was: fail-closed translator only)',
     'C13-9': 'table-mode predicate: a synchronous source hands nothing out after an effective stop to a producer that was already running: now a concrete schedule (was: lockstep replay only)',
     'C17-10': 'a sixth of the scripted visits hold back the last reply of the control script for 15-900 virtual seconds',
+    'C06-9': 'appends with --warc-cdx whose CDX line cannot be written (the index path has become a directory): error reported, no journal left, one more valid record, a new run starts (implementation-side predicate; the index is outside the journal model)',
+    'C16-10': 'hosts with percent-escapes among the generated hosts (ex%61mple.com, cdn%0D%0Amirror.test, h%09x.example.com): refused today; decoded they would carry line breaks into the Host field',
+    'C16-5': '(regression after a generator change; was caught through a random insertion) hand-written cases with a login in the URL and a literal @ later in the path / query, the jar holding cookies of the host named after that @',
+    'C16-8': 'as C16-5',
     'C04-3': 'the scripted connection can be re-connected by the code (the scripted server goes on with its script) and a tenth of the follow-up exchanges find their persistent connection dropped: now a concrete input',
     'C09-4': 'srcset values with empty candidates (trailing / doubled commas, empty, white space only) among the HTML parts: now a concrete input',
     'C09-5': 'CSS escape sequences, among them values above U+10FFFF, in the CSS documents and style attributes: now a concrete input',
